@@ -228,16 +228,25 @@ func saysWhere(msg, caseID string) bool {
 // c15DirMode: the CLI's --dir mode over several spec directories must exit
 // non-zero as soon as one of them is refused, wherever it sorts.
 func c15DirMode(r *core.Run, cli string, outs []*GenOutcome) int {
+	// a refused and a generated case under the same command-line flags (the
+	// verdict of some specs depends on --client)
 	var good, bad *GenOutcome
 	for _, g := range outs {
-		if g.Status == "ok" && good == nil {
-			good = g
-		}
-		if g.Status == "refused" && bad == nil {
+		if g.Status == "refused" && g.P.Case.Flags.BasePath == "" && !g.P.Case.Flags.Cors && !g.P.Case.Flags.NoAPIHandler && g.P.Case.CfgRaw == nil {
 			bad = g
+			break
 		}
 	}
-	if good == nil || bad == nil {
+	if bad == nil {
+		return 0
+	}
+	for _, g := range outs {
+		if g.Status == "ok" && g.P.Case.Flags.Client == bad.P.Case.Flags.Client && !g.P.Case.Flags.Cors && !g.P.Case.Flags.NoAPIHandler && g.P.Case.CfgRaw == nil {
+			good = g
+			break
+		}
+	}
+	if good == nil {
 		return 0
 	}
 	runs := 0
@@ -263,7 +272,7 @@ func c15DirMode(r *core.Run, cli string, outs []*GenOutcome) int {
 			}
 			_ = os.WriteFile(filepath.Join(d, "openapi.yaml"), src.P.Case.SpecBytes(), 0o644)
 		}
-		out, err := core.RunCmd(r.Scratch, 2*time.Minute, nil, cli, "--dir", root, "--package", "gen", "--spec", "openapi.yaml")
+		out, err := core.RunCmd(r.Scratch, 2*time.Minute, nil, cli, "--dir", root, "--package", "gen", "--spec", "openapi.yaml", fmt.Sprintf("--client=%v", bad.P.Case.Flags.Client))
 		runs++
 		switch {
 		case expectFail && err == nil:
